@@ -129,6 +129,13 @@ def run(rep, ix, tier):
     # the file-type detector that gates the RP66V1 tools must accept the same labels (bin_file_type.py is an anchor)
     from . import C20
     C20.check_sul(rep, ix)
+    # a second sequential pass, and a pass interleaved with fetches, read the same records: every pass starts by re-reading the
+    # first visible record (seek targets) and a fetch leaves the shared walk state at the last segment (same walk) - C02's rules
+    from . import C02
+    C02.check_seek_targets(rep, ix, pm)
+    C02.check_same_walk(rep, ix, pm)
+    rep.floor('R-C02-TARGET', 10)
+    rep.floor('R-C02-SAME', 8)
     rep.floor('R-C20-SUL', 8)
     rep.floor('R-C01-SUL', 6)
     rep.floor('R-C01-ATTR', 9)
